@@ -82,6 +82,10 @@ class SegmentAllocationTableAdapter(Adapter):
                 continue_flag = True 
                 while continue_flag:
                     if subpath_index >= size:
+                        # a run of reserved (directory) sectors may extend
+                        # to the last entry of the table
+                        if previous_sector_was_directory and len(links) > 0:
+                            add_to_sector_links(links, sector_links)
                         continue_flag = False
                         break
 
